@@ -12,36 +12,40 @@
            self._entries[nonce] = now + ttl     Insert      -- return True
                                                 Release
 
-   Grain = "lock" : one action per scheduler step of vf/sched.py (a thread runs from one park point to the
+   mode = "lock"  : one action per scheduler step of vf/sched.py (a thread runs from one park point to the
                     next; park points = thread start / "next" between presentations / before every acquire):
                        ReadClock(t, x)   idle -> want      (reads the clock, parks before the acquire)
                        Locked(t)         want -> idle      (Acquire ; Sweep ; Test ; [Evict ; Insert] ; Release)
                     This is the graph whose paths are replayed 1:1 on the real object.
-   Grain = "fine" : Acquire / Sweep / Test(+Evict) / Insert / Release are separate actions and every other
+   mode = "fine"  : Acquire / Sweep / Test(+Evict) / Insert / Release are separate actions and every other
                     thread may move in between (TLC shows that with the lock the clauses still hold, i.e. the
-                    lock-grain reduction is justified; with UseLock = FALSE -- the "drop the lock" design --
-                    TLC must find the clauses violated: vacuity guard for the clauses).
+                    lock-grain reduction is justified).
+   mode = "nolock": the fine-grained machine with the lock dropped -- NOT the design; TLC must find every clause
+                    violated there (vacuity guard for the clauses, see Vacuity below).
 
-   Window (DESIGN 7a): Ttl clock units from the clock value *read* by the accepting presentation:
-   [accNow, accNow + Ttl).  A presentation is "in the window" when its linearization point (Test / Insert)
-   happens while the global clock is still below accNow + Ttl.  "Distinct nonces arrived in that window" =
+   cap, ttl, mode are parameters chosen in Init and never changed (variables rather than constants so that
+   one TLC run covers capacities 1..4 and one TLC run judges traces recorded at different capacities).
+
+   Window (DESIGN 7a): ttl clock units from the clock value *read* by the accepting presentation:
+   [accNow, accNow + ttl).  A presentation is "in the window" when its linearization point (Test / Insert)
+   happens while the global clock is still below accNow + ttl.  "Distinct nonces arrived in that window" =
    distinct nonces other than x whose presentations were linearized after x's acceptance.                     *)
-EXTENDS Naturals, Sequences, FiniteSets, TLC
+EXTENDS Naturals, Sequences, FiniteSets, TLC, Json
 
 CONSTANTS Threads,     \* e.g. {"t1","t2","t3"}
           Nonces,      \* e.g. {"a","b","c"}
-          Cap,         \* capacity        (1..4)
-          Ttl,         \* window length   (>= 1)
+          Caps,        \* capacities explored      (subset of 1..4)
+          Ttls,        \* window lengths explored  (>= 1)
+          Modes,       \* subset of {"lock", "fine", "nolock"}
           MaxClock,    \* Tick bound
-          MaxOps,      \* presentations per thread
-          Grain,       \* "lock" | "fine"
-          UseLock      \* TRUE = design as written; FALSE = lock dropped (only with Grain = "fine")
+          MaxOps       \* presentations per thread
 
 None == "none"
 
-VARIABLES clock,      \* global monotonic clock
+VARIABLES cap, ttl, mode,   \* parameters (see above)
+          clock,      \* global monotonic clock
           entries,    \* the OrderedDict: sequence of [n |-> nonce, exp |-> expires_at], insertion order
-          lock,       \* None or the holder (always None between steps when Grain = "lock")
+          lock,       \* None or the holder (always None between steps when mode = "lock")
           pc,         \* per thread: "idle" | "want" | "sweep" | "test" | "ins" | "rel"
           nonce,      \* per thread: nonce of the presentation in flight
           now,        \* per thread: clock value read by the presentation in flight
@@ -54,26 +58,28 @@ VARIABLES clock,      \* global monotonic clock
           conc,       \* nonce -> threads whose presentation of it was in flight when it was last accepted
           bad         \* names of clauses found false (monotone)
 
+params == <<cap, ttl, mode>>
 mvars == <<clock, entries, lock, pc, nonce, now, ops, last>>
 hvars == <<accepted, accNow, others, conc, bad>>
-vars  == <<mvars, hvars>>
+vars  == <<params, mvars, hvars>>
+UseLock == mode # "nolock"
 
 \* ------------------------------------------------------------------ the cache as functions on the OrderedDict
 RECURSIVE SweepF(_, _)
 SweepF(e, n) == IF e # <<>> /\ e[1].exp <= n THEN SweepF(Tail(e), n) ELSE e       \* stops at first live entry
 Present(e, x) == \E i \in 1..Len(e) : e[i].n = x
-EvictF(e) == IF Len(e) >= Cap THEN SubSeq(e, Len(e) - Cap + 2, Len(e)) ELSE e      \* oldest first, until len < Cap
+EvictF(e) == IF Len(e) >= cap THEN SubSeq(e, Len(e) - cap + 2, Len(e)) ELSE e      \* oldest first, until len < cap
 \* dict assignment: a key that is (again) present keeps its position and gets the new value
-PutF(e, x, n) == IF Present(e, x) THEN [i \in 1..Len(e) |-> IF e[i].n = x THEN [n |-> x, exp |-> n + Ttl] ELSE e[i]]
-                 ELSE Append(e, [n |-> x, exp |-> n + Ttl])
+PutF(e, x, n) == IF Present(e, x) THEN [i \in 1..Len(e) |-> IF e[i].n = x THEN [n |-> x, exp |-> n + ttl] ELSE e[i]]
+                 ELSE Append(e, [n |-> x, exp |-> n + ttl])
 Size == Len(entries)
 
 \* ------------------------------------------------------------------ history bookkeeping at a linearization point
 InFlight(u) == pc[u] # "idle"
 Observe(t, x, acc) ==
   LET replay == /\ acc /\ x \in accepted
-                /\ clock < accNow[x] + Ttl                       \* still inside x's window
-                /\ Cardinality(others[x]) < Cap                  \* fewer than capacity distinct others arrived
+                /\ clock < accNow[x] + ttl                       \* still inside x's window
+                /\ Cardinality(others[x]) < cap                  \* fewer than capacity distinct others arrived
       newbad == IF replay THEN {"NoReplayInWindow"} \cup (IF t \in conc[x] THEN {"AtMostOneConcurrent"} ELSE {})
                 ELSE {}
   IN /\ bad' = bad \cup newbad
@@ -84,7 +90,8 @@ Observe(t, x, acc) ==
                ELSE UNCHANGED <<accepted, accNow, conc>>
 
 \* ------------------------------------------------------------------ actions
-Init == /\ clock = 0 /\ entries = <<>> /\ lock = None
+Init == /\ cap \in Caps /\ ttl \in Ttls /\ mode \in Modes
+        /\ clock = 0 /\ entries = <<>> /\ lock = None
         /\ pc = [t \in Threads |-> "idle"] /\ nonce = [t \in Threads |-> None]
         /\ now = [t \in Threads |-> 0] /\ ops = [t \in Threads |-> 0] /\ last = [t \in Threads |-> None]
         /\ accepted = {} /\ accNow = [x \in Nonces |-> 0] /\ others = [x \in Nonces |-> {}]
@@ -93,43 +100,43 @@ Init == /\ clock = 0 /\ entries = <<>> /\ lock = None
 ReadClock(t, x) == /\ pc[t] = "idle" /\ ops[t] < MaxOps
                    /\ nonce' = [nonce EXCEPT ![t] = x] /\ now' = [now EXCEPT ![t] = clock]
                    /\ pc' = [pc EXCEPT ![t] = "want"]
-                   /\ UNCHANGED <<clock, entries, lock, ops, last, hvars>>
+                   /\ UNCHANGED <<params, clock, entries, lock, ops, last, hvars>>
 
-\* Grain = "lock": the whole critical section
-Locked(t) == /\ Grain = "lock" /\ pc[t] = "want"
+\* mode = "lock": the whole critical section
+Locked(t) == /\ mode = "lock" /\ pc[t] = "want"
              /\ LET e1 == SweepF(entries, now[t])
                     acc == ~Present(e1, nonce[t])
                 IN /\ entries' = IF acc THEN PutF(EvictF(e1), nonce[t], now[t]) ELSE e1
                    /\ last' = [last EXCEPT ![t] = IF acc THEN "accept" ELSE "reject"]
                    /\ Observe(t, nonce[t], acc)
              /\ pc' = [pc EXCEPT ![t] = "idle"] /\ ops' = [ops EXCEPT ![t] = @ + 1]
-             /\ UNCHANGED <<clock, lock, nonce, now>>
+             /\ UNCHANGED <<params, clock, lock, nonce, now>>
 
-\* Grain = "fine"
-Acquire(t) == /\ Grain = "fine" /\ pc[t] = "want" /\ (UseLock => lock = None)
+\* mode = "fine" / "nolock"
+Acquire(t) == /\ mode # "lock" /\ pc[t] = "want" /\ (UseLock => lock = None)
               /\ lock' = IF UseLock THEN t ELSE lock
               /\ pc' = [pc EXCEPT ![t] = "sweep"]
-              /\ UNCHANGED <<clock, entries, nonce, now, ops, last, hvars>>
+              /\ UNCHANGED <<params, clock, entries, nonce, now, ops, last, hvars>>
 Sweep(t) == /\ pc[t] = "sweep" /\ entries' = SweepF(entries, now[t])
             /\ pc' = [pc EXCEPT ![t] = "test"]
-            /\ UNCHANGED <<clock, lock, nonce, now, ops, last, hvars>>
+            /\ UNCHANGED <<params, clock, lock, nonce, now, ops, last, hvars>>
 Test(t) == /\ pc[t] = "test"
            /\ IF Present(entries, nonce[t])
               THEN /\ last' = [last EXCEPT ![t] = "reject"] /\ Observe(t, nonce[t], FALSE)
                    /\ pc' = [pc EXCEPT ![t] = "rel"] /\ UNCHANGED entries
               ELSE /\ entries' = EvictF(entries) /\ pc' = [pc EXCEPT ![t] = "ins"]
                    /\ UNCHANGED <<last, hvars>>
-           /\ UNCHANGED <<clock, lock, nonce, now, ops>>
+           /\ UNCHANGED <<params, clock, lock, nonce, now, ops>>
 Insert(t) == /\ pc[t] = "ins" /\ entries' = PutF(entries, nonce[t], now[t])
              /\ last' = [last EXCEPT ![t] = "accept"] /\ Observe(t, nonce[t], TRUE)
              /\ pc' = [pc EXCEPT ![t] = "rel"]
-             /\ UNCHANGED <<clock, lock, nonce, now, ops>>
+             /\ UNCHANGED <<params, clock, lock, nonce, now, ops>>
 Release(t) == /\ pc[t] = "rel" /\ lock' = IF UseLock THEN None ELSE lock
               /\ pc' = [pc EXCEPT ![t] = "idle"] /\ ops' = [ops EXCEPT ![t] = @ + 1]
-              /\ UNCHANGED <<clock, entries, nonce, now, last, hvars>>
+              /\ UNCHANGED <<params, clock, entries, nonce, now, last, hvars>>
 
 Tick == /\ clock < MaxClock /\ clock' = clock + 1
-        /\ UNCHANGED <<entries, lock, pc, nonce, now, ops, last, hvars>>
+        /\ UNCHANGED <<params, entries, lock, pc, nonce, now, ops, last, hvars>>
 
 Next == \/ \E t \in Threads : \/ \E x \in Nonces : ReadClock(t, x)
                               \/ Locked(t)
@@ -138,19 +145,30 @@ Next == \/ \E t \in Threads : \/ \E x \in Nonces : ReadClock(t, x)
 Spec == Init /\ [][Next]_vars
 
 \* ------------------------------------------------------------------ property clauses (C23)
-SizeBound           == Len(entries) <= Cap
+SizeBound           == Len(entries) <= cap
 NoReplayInWindow    == "NoReplayInWindow" \notin bad
 AtMostOneConcurrent == "AtMostOneConcurrent" \notin bad
+
+\* the design (with its lock) must satisfy every clause ...
+Inv_SizeBound           == UseLock => SizeBound
+Inv_NoReplayInWindow    == UseLock => NoReplayInWindow
+Inv_AtMostOneConcurrent == UseLock => AtMostOneConcurrent
+\* ... and every clause must be falsifiable: in mode "nolock" each one fails somewhere (always TRUE; the driver
+\* requires one line per clause when "nolock" \in Modes)
+Vacuity == UseLock \/ LET f == {c \in {"SizeBound", "NoReplayInWindow", "AtMostOneConcurrent"} :
+                                   \/ c = "SizeBound" /\ ~SizeBound
+                                   \/ c \in bad}
+                       IN f = {} \/ PrintT("@@J@@" \o ToJson([falsified |-> f]))
 
 \* ------------------------------------------------------------------ model sanity (not part of the statement)
 TypeOK == /\ clock \in 0..MaxClock /\ lock \in Threads \cup {None}
           /\ \A i \in 1..Len(entries) : entries[i].n \in Nonces
-          /\ \A i, j \in 1..Len(entries) : i # j => entries[i].n # entries[j].n      \* a dict: keys are unique
-          /\ (Grain = "lock" => lock = None)
-\* an entry whose window is still open is in the cache unless >= Cap distinct others arrived since (exact form)
+          /\ UseLock => \A i, j \in 1..Len(entries) : i # j => entries[i].n # entries[j].n   \* a dict: unique keys
+          /\ (mode = "lock" => lock = None)
+\* an entry whose window is still open is in the cache unless >= cap distinct others arrived since (exact form)
 LiveEntryKept == (UseLock /\ lock = None) =>
                     \A x \in accepted :
-                       (clock < accNow[x] + Ttl /\ Cardinality(others[x]) < Cap) => Present(entries, x)
+                       (clock < accNow[x] + ttl /\ Cardinality(others[x]) < cap) => Present(entries, x)
 \* MC only: threads and nonces are interchangeable (model values in the cfg)
 Symmetry == Permutations(Threads) \cup Permutations(Nonces)
 =========================================================================================
